@@ -217,7 +217,7 @@ func genC18s(rng *rand.Rand, tier string, w *bufio.Writer) {
 		hung := false
 		select {
 		case <-done:
-		case <-time.After(30 * time.Second):
+		case <-time.After(HxScale(60 * time.Second)):
 			hung = true
 		}
 		verifhook.SetHandler(nil)
